@@ -299,6 +299,13 @@ impl GitSyncServer {
             }
         }
 
+        // An interrupted write can leave tracked files (`meta`, `snapshot`) rewritten, truncated or
+        // staged without a commit, so that `meta` names a version that was never committed or
+        // cannot be parsed at all. Restore the committed state; untracked leftovers are removed
+        // below. (On a repository without commits there is nothing to restore and this fails
+        // harmlessly.)
+        git.cmd_ok(local_path, &["reset", "--hard", "HEAD"])?;
+
         // Check for meta file, create and commit if missing.
         let meta_path = local_path.join("meta");
         let meta = match load_meta(&meta_path) {
